@@ -57,26 +57,31 @@ Proof.
   - destruct (0 <=? z0); [|reflexivity]. destruct (arith_int Shl z z0) eqn:E; cbn [eval v_arith]; rewrite ?E; reflexivity.
   - destruct (0 <=? z0); [|reflexivity]. destruct (arith_int Shr z z0) eqn:E; cbn [eval v_arith]; rewrite ?E; reflexivity.
 Qed.
+Lemma bconst_sound : forall e b, bconst e = Some b -> forall en, eval en e = VBool b.
+Proof.
+  induction e; intros v H en; cbn [bconst] in H; try discriminate.
+  - injection H as <-. reflexivity.
+  - cbn [eval]. apply IHe2. exact H.
+Qed.
 Lemma fold_and_sound : forall a b en, eval en (fold_and a b) = eval en (EAnd a b).
 Proof.
-  intros a b en.
-  assert (R : forall x, eval en (EAnd x (EBool false)) = VBool false)
-    by (intros x; cbn [eval truthy]; rewrite andb_false_r; reflexivity).
-  unfold fold_and. destruct a; destruct b; try reflexivity;
-    repeat match goal with x : bool |- _ => destruct x end;
-    try reflexivity; try (symmetry; apply R).
+  intros a b en. unfold fold_and. cbn [eval].
+  destruct (bconst a) as [[|]|] eqn:Ha; destruct (bconst b) as [[|]|] eqn:Hb;
+    try rewrite (bconst_sound _ _ Ha en); try rewrite (bconst_sound _ _ Hb en);
+    cbn [eval truthy andb]; rewrite ?andb_false_r; reflexivity.
 Qed.
 Lemma fold_or_sound : forall a b en, eval en (fold_or a b) = eval en (EOr a b).
 Proof.
-  intros a b en.
-  assert (R : forall x, eval en (EOr x (EBool true)) = VBool true)
-    by (intros x; cbn [eval truthy]; rewrite orb_true_r; reflexivity).
-  unfold fold_or. destruct a; destruct b; try reflexivity;
-    repeat match goal with x : bool |- _ => destruct x end;
-    try reflexivity; try (symmetry; apply R).
+  intros a b en. unfold fold_or. cbn [eval].
+  destruct (bconst a) as [[|]|] eqn:Ha; destruct (bconst b) as [[|]|] eqn:Hb;
+    try rewrite (bconst_sound _ _ Ha en); try rewrite (bconst_sound _ _ Hb en);
+    cbn [eval truthy orb]; rewrite ?orb_true_r; reflexivity.
 Qed.
 Lemma fold_not_sound : forall a en, eval en (fold_not a) = eval en (ENot a).
-Proof. intros a en. destruct a; reflexivity. Qed.
+Proof.
+  intros a en. unfold fold_not. destruct (bconst a) as [b|] eqn:Ha; [|reflexivity].
+  cbn [eval]. rewrite (bconst_sound _ _ Ha en). reflexivity.
+Qed.
 Lemma fold_neg_sound : forall a en, eval en (fold_neg a) = eval en (ENeg a).
 Proof. intros a en. destruct a; reflexivity. Qed.
 Lemma fold_bitnot_sound : forall a en, eval en (fold_bitnot a) = eval en (EBitNot a).
